@@ -632,6 +632,13 @@ class Transformer:
                     valid = False
                     break
 
+                if '%z' in era['format']:
+                    _add_reason(
+                        removed_zones, zone_name,
+                        "FORMAT contains unsupported '%z'")
+                    valid = False
+                    break
+
                 if era['rules'] == '-' or ':' in era['rules']:
                     if '%' in era['format']:
                         _add_reason(
